@@ -573,6 +573,7 @@ func run(raw json.RawMessage) driver.Result {
 	vlog1 := snapLog()
 	n1, e1 := snapCalls()
 
+	var tags []string
 	// ---- a later file change (watching only)
 	updTerm := "None"
 	if implOK && watch && kind != "no-path" {
@@ -592,11 +593,19 @@ func run(raw json.RawMessage) driver.Result {
 			newLeafs.Valid = &f
 		}
 		tmp := used + ".tmp"
-		os.WriteFile(tmp, []byte(render(format, newLeafs)), 0o644)
+		newContent := []byte(render(format, newLeafs))
+		oldContent, _ := os.ReadFile(used)
+		os.WriteFile(tmp, newContent, 0o644)
 		newLayer := func() string { // decode the new content exactly as the watcher will
 			os.Rename(tmp, used)
 			return fileLayer(used)
 		}()
+		if string(oldContent) == string(newContent) {
+			// atomically replacing the file with identical bytes must not produce a new version (C17):
+			// the expectation is the same as for content that does not decode - nothing changes
+			newLayer = "(Err 1)"
+			tags = append(tags, "update-identical-bytes")
+		}
 		before := out.d.View()
 		deadline := time.Now().Add(8 * time.Second)
 		for time.Now().Before(deadline) {
@@ -623,7 +632,7 @@ func run(raw json.RawMessage) driver.Result {
 		rty.FieldsTerm(T), defTerm, rty.ValTerm(envV), rty.ValTerm(flagV), pathIdx, validIdx, coqfmt.Bool(watch),
 		coqfmt.List(files),
 		coqfmt.Bool(implOK), viewTerm, coqfmt.List(vlog1), coqfmt.Bool(eventsEmpty), n1, e1, updTerm)
-	tags := []string{"format-" + format, fmt.Sprintf("watch-%v", watch), fmt.Sprintf("impl-ok-%v", implOK)}
+	tags = append(tags, "format-"+format, fmt.Sprintf("watch-%v", watch), fmt.Sprintf("impl-ok-%v", implOK))
 	if updTerm != "None" {
 		tags = append(tags, "with-file-update")
 	}
